@@ -5,7 +5,7 @@ the real operators on leaves L and on g.L (reference action; filter leaves trans
 traces are aligned node by node: every node's declared (k, parity) must equal the grammar's type and
 node(g.L) must equal g.node(L) under the declared type; the first diverging node is the witness.
 Class-level recorders count operator executions. Extra laws: contraction independent of pair order and
-order inside a pair; A(x)B == transpose(B(x)A)."""
+order inside a pair; A(x)B == transpose(B(x)A). A high-order stratum reaches intermediate tensor orders 5..8 (d=2) / 4..6 (d=3)."""
 from __future__ import annotations
 
 import itertools as it
